@@ -67,6 +67,17 @@ def call_fn_value(ex, st, f, argvals):
         yield from _call_closure_paths(ex, st, f, argvals)
         return
     if fv[0] == "fn":
+        if fv[1] in ex.models:
+            # a function item with a model (e.g. `.map(Into::into)` where the caller declared the conversion to be the identity)
+            try:
+                r = ex.models[fv[1]](ex, st, None, list(argvals))
+            except (AttributeError, TypeError):
+                r = NotImplemented
+            if r is not NotImplemented:
+                for s2, kind, val in r:
+                    if kind == "ret":
+                        yield s2, val
+                return
         if any(r.search(fv[1]) for r in ex.no_inline):
             yield st, ("call", fv[1], tuple(ex.canon(st, a) for a in argvals))
             return
@@ -647,6 +658,15 @@ def consumer(ex, st, call, args):
                 else:
                     yield s2, acc, ("adt", "core::result::Result", "Err", (payload,))
         return _consume(ex, st, T, on_item, lambda s, acc: _ret(s, ("adt", "core::result::Result", "Ok", (("call", "vec!", (("array", acc),)),))), ())
+    if m == "collect" and len(args) == 1 and re.match(r"^(geo_types|geo)::", dest_ty):
+        # collecting into one of the repository's own containers: its FromIterator impl
+        head = dest_ty.split("<")[0]
+        for im in ex.facts.impls_of("core::iter::traits::collect::FromIterator"):
+            if im["self_ty"].split("<")[0] == head and im.get("crate") in ("geo", "geo_types"):
+                g = ex.facts.impl_fn(im, "from_iter")
+                if g is not None:
+                    return ex.call_fn(g, [T], st, None)
+        return NotImplemented
     if m == "collect" and len(args) == 1 and re.match(r"^(alloc::vec::)?Vec<", dest_ty):
         return _consume(ex, st, T, lambda s, acc, it: iter([(s, acc + (it,), None)]),
                         lambda s, acc: _ret(s, ("call", "vec!", (("array", acc),))), ())
